@@ -40,18 +40,25 @@ def toksOfEntry (e : Entry) : List String :=
 def setE (l : List (String × Entry)) (k : String) (e : Entry) : List (String × Entry) :=
   (k, e) :: l.filter fun p => p.1 ≠ k
 
-def step (st : St) (n : Nat) (ln : Line) : St × List String :=
+def step (st : St) (n : Nat) (ln0 : Line) : St × List String :=
+  -- a `cput <writer> …` line of a concurrent round is one ATOMIC insert for the model
+  -- (Props.concurrent_inserts_commute: the order of atomic inserts of distinct paths is irrelevant)
+  let conc := ln0.op == "cput"
+  let ln : Line := if conc then { ln0 with op := "put", args := ln0.args.drop 1 } else ln0
   let a := ln.args
   let o := ln.outs
   match ln.op with
   | "reset" => ({}, [s!"COV reset.{a.getD 0 ""}"])
+  | "concbegin" => (st, ["COV conc.round"])
+  | "concend" => (st, [])
   | "put" =>
     let path := a.getD 1 "-"
     let e := entryOfToks (a.drop 2)
     let b := beforeEntry e
     let model := ["ok", toString (firstTag b), "0"]
     -- judge (no_false_gzip): the marshalled entry must not look like gzip
-    let j := if o.getD 2 "0" == "1" then [specfail n "EncodeAttributesAndChunks/looks-like-gzip" path] else []
+    let j := (if o.getD 2 "0" == "1" then [specfail n "EncodeAttributesAndChunks/looks-like-gzip" path] else [])
+      ++ (if conc ∧ o.getD 0 "" != "ok" then [specfail n "InsertEntry/concurrent-insert-fails" path] else [])
     let h := hardLinkId e
     -- spec side: every path that is a link of the same file now denotes the new content
     let shareW := fun (l : List (String × Entry)) => if h == "-" then l else l.map fun p => if hardLinkId p.2 == h then (p.1, e) else p
@@ -60,6 +67,7 @@ def step (st : St) (n : Nat) (ln : Line) : St × List String :=
         { st with stored := setE st.stored path b, written := setE (shareW st.written) path e,
                   hl := if h == "-" then st.hl else setE st.hl h b } else st
     let cov := [if e.chunks.length > 50 then "COV put.over-50-chunks" else "COV put.upto-50-chunks", s!"COV put.{a.getD 0 ""}"]
+      ++ (if conc then [if e.chunks.length > 50 then "COV conc.put-over-50-chunks" else "COV conc.put-upto-50-chunks"] else [])
       ++ (if e.chunks.any (fun c => c.fileId ≠ [] ∧ (parseFid c.fileId).isNone) then ["COV put.unparseable-file-id"] else [])
       ++ (if e.chunks.any (fun c => c.fileId ≠ [] ∧ canonId c.fileId ≠ c.fileId) then ["COV put.noncanonical-file-id"] else [])
       ++ (if e.chunks.any (fun c => c.fid.isSome ∧ c.fileId = []) then ["COV put.fid-object"] else [])
